@@ -88,6 +88,7 @@ type Case struct {
 
 // Aux carries the larger property-specific expectation payloads.
 type Aux struct {
+	C06 *C06Expect `json:"c06,omitempty"`
 	// C12: expected stdout blocks per step, see c12.go
 	C12 *C12Expect `json:"c12,omitempty"`
 	// C20: session lines and their classes
